@@ -427,17 +427,17 @@ def case_term(c, o):
     tdir = o.get("tdir")
     res = o.get("results")
     if tdir is None or res is None or len(res) != len(d["queries"]):
-        return "[[false; false]]", [False]
+        return "[[false; false; false]]", [False]
     T = table_term(d, tdir)
     items, flags = [], []
     if c["kind"] == "hist":
         h = clist([op_term(tuple(x)) for x in c["history"]])
         hint = "true" if c["use_hint"] else "false"
         head = (f"[table_eqb T (replay_table dir {hint} h); wf_history h && good_dir dir"
-                + ("" if c["use_hint"] else " && strict_clock h") + "]")
+                + ("" if c["use_hint"] else " && strict_clock h") + "; true]")
     else:
         h = "(@nil op)"
-        head = "[true; true]"
+        head = "[true; true; true]"
     for q, r in zip(d["queries"], res):
         it, fl = impl_term(r, tdir)
         flags.append(fl)
@@ -445,12 +445,23 @@ def case_term(c, o):
         spec = f"spec_ok T {qt} i"
         if c["kind"] == "hist":
             spec = f"spec_ok_hist dir h {qt} i && " + spec
-        items.append(f"(let i := {it} in [out_eqb T i (open_table T {qt}); {spec}])")
+        # [impl == model; impl satisfies spec; MODEL satisfies the directory-level spec too]
+        items.append(f"(let i := {it} in let m := open_table T {qt} in [out_eqb T i m; {spec}; spec_ok T {qt} (impl_of T m)])")
     return (f"(let dir := {cstr(tdir)} in let T := {T} in let h := {h} in " + clist([head] + items) + ")"), flags
 
 
+def run_harness_parallel(dirs, chunk=60, workers=8):
+    """the harness is a sequential process (one temp directory per case); run several side by side"""
+    from concurrent.futures import ThreadPoolExecutor
+    vlib.run_harness("c17", [])                      # build once, serially
+    chunks = [dirs[i:i + chunk] for i in range(0, len(dirs), chunk)]
+    with ThreadPoolExecutor(max_workers=workers) as ex:
+        parts = list(ex.map(lambda ch: vlib.run_harness("c17", ch), chunks))
+    return [o for p in parts for o in p]
+
+
 def evaluate(ctx, cases):
-    outs = vlib.run_harness("c17", [c["dir"] for c in cases])
+    outs = run_harness_parallel([c["dir"] for c in cases])
     terms, flags = [], []
     for c, o in zip(cases, outs):
         t, f = case_term(c, o)
@@ -460,14 +471,14 @@ def evaluate(ctx, cases):
     for v, f in zip(vals, flags):
         head, rest = v[0], v[1:]
         gen_ok = bool(head[0]) and bool(head[1])            # generator built exactly replay_table; hypotheses hold
-        eq.append(gen_ok and all(r[0] for r in rest))
+        eq.append(gen_ok and all(r[0] for r in rest) and all(r[2] for r in rest))
         ok.append(all(r[1] for r in rest) and all(f))
     return outs, eq, ok, vals
 
 
 def run(ctx):
     proved = ctx.prove(allow=[])
-    nh, nr = ctx.n(120, 2500), ctx.n(150, 2500)
+    nh, nr = ctx.n(120, 2500), ctx.n(130, 1500)
     cases = directed() + [gen_hist(ctx.rng) for _ in range(nh)] + [gen_raw(ctx.rng) for _ in range(nr)]
     if not proved:
         cases += [gen_hist(ctx.rng) for _ in range(600)] + [gen_raw(ctx.rng) for _ in range(600)]
